@@ -41,6 +41,14 @@ CHECKS = {
    text="Generated connections mix well-formed requests with stream-scoped offences (malformed field, content-length mismatch, oversized body, refused stream, peer RST at four points, handler panic, stream WINDOW_UPDATE overflow/zero) and frames written before the peer could see the server's reaction; all blocks share a vocabulary so later blocks index entries inserted by offending ones. No GOAWAY/EOF may occur and every well-formed request, plus a final probe indexing the whole vocabulary, must be served exactly. Exploration only.",
    note="Trusted: scripted peer and reference HPACK; the peer behaves as a conforming client (returns connection credit for everything it received).",
    ref="6.2 C09"),
+ "C06": dict(technique="model-based property testing (rapid): peer-side flow-control ledger as reference model over generated grant schedules, lock-step via hook-counter quiescence",
+   text="Generated vectors of concurrent responses (buffered/streamed, up to 200000 bytes) are drained under generated schedules of stream/connection WINDOW_UPDATEs, SETTINGS_INITIAL_WINDOW_SIZE increases and decreases (incl. driving windows negative) and handler releases; the peer's ledger is the authority: no DATA beyond either window or over MAX_FRAME_SIZE, no idle server while both windows are positive and bytes are owed (decided at quiescence), exact completion after generous grants. Exploration only.",
+   note="Trusted: the peer's ledger (built from exactly the frames it sent), hook counters for quiescence.",
+   ref="6.2 C06"),
+ "C14": dict(technique="model-based property testing (rapid): conforming-sender model that blocks exactly when its ledger is exhausted; starvation decided at quiescence",
+   text="A sender model uploads generated bodies (chunking, padding, empty frames, interleaving, streams ending in stream errors with frames in flight), repeating the pattern until more than two connection windows have moved; it sends only when the ledger built from the receiver's SETTINGS/WINDOW_UPDATE frames allows. Violations: increment 0, window above 2^31-1, or a quiescent receiver while the sender cannot send its next frame on a stream that is still open (which is how cumulative credit leaks surface). Server half only so far (client half is listed in DESIGN as a later lane). Exploration only.",
+   note="Trusted: the sender model's ledger; hook counters for quiescence.",
+   ref="6.2 C14"),
 }
 PENDING = {}  # id -> reason, for properties not claimed (yet)
 
